@@ -21,6 +21,8 @@ func TestSim(t *testing.T) {
 				RunC01(st, tier, leg, logOn, res)
 			case "C09":
 				RunC09(st, tier, leg, logOn, res)
+			case "C10":
+				RunC10(st, tier, leg, logOn, res)
 			case "C11":
 				RunC11(st, tier, leg, logOn, res)
 			case "C12":
